@@ -301,4 +301,92 @@ Proof.
     apply in_map_iff in Ho. destruct Ho as [cl [<- _]]. apply bytes_eqb_refl.
 Qed.
 
+
+(* ---------- honest encodings consist of bytes ---------- *)
+Lemma wf_le32 n : wf (le32 n). Proof. apply wf_bytes_of_le. Qed.
+Lemma wf_store s : wf s -> wf (store_bytes s).
+Proof. intros H. unfold store_bytes. apply wf_app. split; [apply wf_le32|exact H]. Qed.
+Lemma wf_flat_repr l : wf (flat_map to_repr l).
+Proof. induction l as [|a l IH]; cbn [flat_map]; [constructor|apply wf_app; split; [apply wf_to_repr|exact IH]]. Qed.
+Lemma sharing_wf c : wf (cM c) -> wf (cR c) ->
+  wf (hJ (sharing_of F c)) /\ wf (hC (sharing_of F c)) /\ wf (hD (sharing_of F c)).
+Proof.
+  intros HM HR. destruct (sharing_of_fields F c) as (HJ & _ & HC & HD & _). cbv zeta in *.
+  rewrite HJ, HC, HD. repeat split; [apply (send_mac_wf F F_bytes)|apply (send_enc_wf F F_bytes); exact HM|apply (send_enc_wf F F_bytes); exact HR].
+Qed.
+Lemma mk_share_bytes_wf (t : N) (h : sharing) polys x : wf (hJ h) -> wf (hC h) -> wf (hD h) ->
+  wf (ashare_to_bytes (mk_share t h polys x)).
+Proof.
+  intros HJ HC HD. unfold ashare_to_bytes. cbn [aA aS aC aD aJ mk_share].
+  apply wf_app. split; [apply wf_le32|]. apply wf_app. split.
+  - apply wf_store. unfold share_to_bytes. apply wf_app. split; [apply wf_to_repr|apply wf_flat_repr].
+  - apply wf_app. split; [apply wf_store; exact HC|]. apply wf_app. split; [apply wf_store; exact HD|exact HJ].
+Qed.
+
+(* ---------- newline-separated lists ---------- *)
+Fixpoint join_nl (l : list bytes) : bytes :=
+  match l with
+  | [] => []
+  | [a] => a
+  | a :: rest => a ++ 10%N :: join_nl rest
+  end.
+Lemma split_nl_chunk : forall a cur s, Forall (fun c => c <> 10%N) a -> split_nl cur (a ++ s) = split_nl (rev a ++ cur) s.
+Proof.
+  induction a as [|c a IH]; intros cur s H; [reflexivity|]. inversion H as [|? ? Hc Ha]; subst.
+  cbn [app split_nl]. replace (N.eqb c 10) with false by (symmetry; apply N.eqb_neq; exact Hc).
+  rewrite IH by exact Ha. cbn [rev]. rewrite <- app_assoc. reflexivity.
+Qed.
+Lemma split_join : forall l, l <> [] -> Forall (Forall (fun c => c <> 10%N)) l -> split_nl [] (join_nl l) = l.
+Proof.
+  induction l as [|a l IH]; intros Hne H; [congruence|]. inversion H as [|? ? Ha Hl]; subst.
+  destruct l as [|b l].
+  - cbn [join_nl]. rewrite <- (app_nil_r a) at 1. rewrite split_nl_chunk by exact Ha. cbn [split_nl]. rewrite app_nil_r, rev_involutive. reflexivity.
+  - change (join_nl (a :: b :: l)) with (a ++ 10%N :: join_nl (b :: l)).
+    rewrite split_nl_chunk by exact Ha. cbn [split_nl]. rewrite N.eqb_refl, app_nil_r, rev_involutive.
+    f_equal. apply IH; [discriminate|exact Hl].
+Qed.
+Lemma b64_no_newline bs : Forall (fun c => c <> 10%N) (b64_encode bs).
+Proof. eapply Forall_impl; [|apply b64_encode_safe]. intros c (_ & _ & H). lia. Qed.
+
+Lemma decode_chunks_encoded : forall shs, Forall (fun s => ashare_wf s /\ wf (ashare_to_bytes s)) shs ->
+  decode_chunks (map (fun s => b64_encode (ashare_to_bytes s)) shs) = Ok shs.
+Proof.
+  induction shs as [|s shs IH]; intros H; [reflexivity|]. inversion H as [|? ? [Hwf Hb] Hr]; subst.
+  cbn [map decode_chunks]. rewrite b64_roundtrip by exact Hb. rewrite ashare_roundtrip by exact Hwf. cbn [obind].
+  rewrite IH by exact Hr. reflexivity.
+Qed.
+
+(* the shares created for one measurement, handed to group_shares with the clients' epoch, yield the key
+   every contributing client holds - as soon as t distinct shares are present *)
+Theorem group_of_created m (t : N) epoch xs shs :
+  (1 <= t < two32)%N -> wf epoch ->
+  shares_at F (commune_of F t (sample_local F m epoch t)) xs = Ok (Some shs) -> xs <> [] ->
+  (t <= N.of_nat (length (nodup fp_eq_dec xs)))%N ->
+  group_shares F (join_nl (map (fun s => b64_encode (ashare_to_bytes s)) shs)) epoch
+  = Ok (Some (b64_encode (derive_ske_key F (r0 F (sample_local F m epoch t)) epoch))).
+Proof.
+  intros [Ht1 Ht2] He Hs Hne Hcnt.
+  set (c := commune_of F t (sample_local F m epoch t)) in *.
+  pose proof (shares_recover F F_bytes c xs shs eq_refl Ht1 Hs Hne Hcnt) as Hrec.
+  destruct (shares_at_inv F c xs shs Hs) as (polys & Hp & Eshs).
+  destruct (polys_from_key F (cA c) (sharing_of F c) polys (hK_len F c) (hK_wf F F_bytes c) Hp) as (cs & el & Hpolys & _ & _).
+  assert (HwM : wf (cM c)) by (apply (prf_wf F F_bytes)).
+  assert (HwR : wf (cR c)) by (apply (prf_wf F F_bytes)).
+  destruct (sharing_wf c HwM HwR) as (WJ & WC & WD).
+  destruct (sharing_lengths F c) as (LC & LD & LJ).
+  assert (Hall : Forall (fun s => ashare_wf s /\ wf (ashare_to_bytes s)) shs).
+  { rewrite Eshs. apply Forall_forall. intros s Hin. apply in_map_iff in Hin. destruct Hin as [x [<- _]].
+    rewrite Hpolys. split.
+    - apply mk_share_wf; [exact Ht2| | |exact LJ].
+      + apply (fits32_small _ 32); [rewrite LC; exact (length_r0 F _)|reflexivity].
+      + apply (fits32_small _ 32); [rewrite LD; exact (length_r1 F _)|reflexivity].
+    - apply mk_share_bytes_wf; assumption. }
+  assert (Hshs : shs <> []) by (rewrite Eshs; destruct xs; [congruence|discriminate]).
+  rewrite (group_shares_spec _ _ shs).
+  - unfold share_recover. rewrite Hrec. reflexivity.
+  - rewrite split_join.
+    + apply decode_chunks_encoded. exact Hall.
+    + destruct shs; [congruence|discriminate].
+    + apply Forall_forall. intros ch Hch. apply in_map_iff in Hch. destruct Hch as [s [<- _]]. apply b64_no_newline.
+Qed.
 End WF.
